@@ -41,7 +41,7 @@ FIELD_WORD = {
     "rd": "upblk-read", "wr": "upblk-write", "calls": "upblk-call", "ff": "update-ff",
     "once": "update-once", "uu": "U-U-constraint", "rdu": "RD-U-constraint", "wru": "WR-U-constraint",
     "mc": "M-constraint", "consts": "adjacency-const", "funcs": "function-name", "sinfo": "signal-info",
-    "minfo": "method-port-info", "phs": "placeholder-set",
+    "minfo": "method-port-info", "phs": "placeholder-set", "clevel": "component-level",
 }
 KIND_FIELDS = ("named", "calls", "adj", "conn", "sigs", "rdu", "wru", "mc", "rd", "wr")
 _SLICE = re.compile(r"\[\d+:\d+\]$")
@@ -332,6 +332,8 @@ class Projector:
             minfo.append([nm(x), role, self.host_of(x)])
         P["minfo"] = minfo
         P["phs"] = [nm(c) for c in comps if isinstance(c, D.Placeholder)]
+        # hierarchy level of every component (public getter); compared mutated-vs-fresh only
+        P["clevel"] = [[nm(c), "#L%d" % c.get_component_level()] for c in comps]
         conn = []
         for c in comps:
             for (a, b) in c.get_connect_order():
@@ -1008,6 +1010,13 @@ def check_state(fam, top, cfg, removed, inputs):
     stale, missing = diff(P, F["P"])
     dup = duplicates(P)
     findings = [(c, f, k, es[:6]) for (c, f, k, es) in classify(stale, missing, dup, kinds, F["kinds"])]
+    # get_component_level() of every component that exists in both designs must agree (the level is
+    # not part of the specification's state: it follows from the name, which is compared above)
+    lv_new = {e[0]: e[1] for e in P.get("clevel", [])}
+    lv_old = {e[0]: e[1] for e in F["P"].get("clevel", [])}
+    bad = sorted([n, lv_new[n], lv_old[n]] for n in lv_new if n in lv_old and lv_new[n] != lv_old[n])
+    if bad:
+        findings.append(("stale", "clevel", "", bad[:6]))
     reach = []
     for path, desc in sweep(top, removed):
         owner, cont, role = sweep_container(path)
